@@ -486,18 +486,34 @@ theorem Inv.step {s : St} (h : Inv s) : Inv (step specs s) := by
         [.frameStart s.nextId] hf0 rfl rfl rfl rfl rfl (by simp [Out.frame]) rfl rfl rfl rfl rfl rfl rfl rfl
         hne (by simp [emit, hc, Ctl.rootIsDone]) (by simp [rootTrace])
     · rename_i n k hk
-      split
+      simp only []
+      have key : ∀ s1 : St, Inv s1 → s1.ctl = .exec → s1.frames ≠ [] →
+          Inv (if s.srcStopped then { emit (emit s1 (.sched n)) (.schedCancel n) with ctl := .resume .done }
+               else if s.inlineSched then emit s1 (.sched n)
+               else { emit s1 (.sched n) with ctl := .waitSched n, queue := (emit s1 (.sched n)).queue ++ [.sched] }) := by
+        intro s1 h1 hc1 _
+        have h2 := h1.emitNone (.sched n) rfl rfl
+        split
+        · exact (h2.emitNone (.schedCancel n) rfl rfl).ctlOnly [] rfl rfl rfl rfl (by simp) (by simp) rfl
+            (fun _ => by simp [emit, hc1, Ctl.exiting]) rfl (by simp [emit, hc1])
+        · split
+          · exact h2
+          · exact h2.ctlOnly [] rfl rfl rfl rfl (by simp) (by simp) rfl
+              (fun _ => by simp [emit, hc1, Ctl.exiting]) rfl (by simp [emit, hc1])
+      by_cases hr : fr.resched = true
       · have h1 : Inv { s with frames := { fr with kont := k, catching := false, sched := n } :: rest } :=
           h.updTop (fr' := { fr with kont := k, catching := false, sched := n }) [] hf0 rfl rfl rfl rfl (by simp) rfl
             (by simp) (by simp [regTrace]) (by simp [cleanupTraceOf]) (by simp [deadCount, deadTrace])
             hhist (fun _ => hran) (by rw [hc]; rfl) (by simp [rootTrace])
-        exact h1.schedHop _ _ (by simp [hc, Ctl.exiting]) (by simp [hc])
+        have := key _ h1 hc (by simp)
+        simpa [hr] using this
       · have h1 : Inv (emit { s with frames := { fr with kont := k, catching := false, sched := n, resched := true, cleanups := (0, CK.back fr.sched) :: fr.cleanups, regd := 0 :: fr.regd } :: rest } (.reg fr.id 0)) :=
           h.updTop (fr' := { fr with kont := k, catching := false, sched := n, resched := true, cleanups := (0, CK.back fr.sched) :: fr.cleanups, regd := 0 :: fr.regd })
             [.reg fr.id 0] hf0 rfl rfl rfl rfl rfl rfl
             (by simp [Out.frame]) (by simp [regTrace]) (by simp [cleanupTraceOf]) (by simp [deadCount, deadTrace])
             (by rw [hran] at hhist ⊢; simpa using hhist) (fun _ => hran) (by simp [emit, hc, Ctl.rootIsDone]) (by simp [rootTrace])
-        exact h1.schedHop _ _ (by simp [emit, hc, Ctl.exiting]) (by simp [emit, hc])
+        have := key _ h1 hc (by simp [emit])
+        simpa [hr] using this
   · -- resume
     rename_i o fr rest hc hf0
     have hne : s.ctl.exiting = false := by rw [hc]; rfl
@@ -588,6 +604,10 @@ theorem Inv.deliverStop {s : St} (h : Inv s) : Inv (deliverStop specs s) := by
     split
     · exact h2.leafDone _ _ _ (by rw [hc2]; rfl) (by rw [hc2]; simp)
     · exact h2
+  · rename_i k hc
+    have hc' : s.ctl = .waitSched k := hc
+    exact (h1.emitNone (.schedCancel k) rfl rfl).ctlOnly [] rfl rfl rfl rfl (by simp) (by simp) rfl
+      (fun _ => by simp [emit, hc', Ctl.exiting]) rfl (by simp [emit, hc'])
   · exact h1
 
 theorem Inv.stopOpDone {s : St} (h : Inv s) : Inv (stopOpDone s) := by
@@ -648,6 +668,12 @@ theorem Inv.onRun {s : St} (h : Inv s) : Inv (onRun specs s) := by
   · rename_i o q hq
     split
     · rename_i hc
+      apply Inv.settle
+      exact h.ctlOnly [] rfl rfl rfl rfl (by simp) (by simp) rfl (fun _ => by rw [hc]; rfl) rfl (by rw [hc]; simp)
+    · exact h.flags rfl rfl rfl rfl rfl rfl
+  · rename_i q hq
+    split
+    · rename_i k hc
       apply Inv.settle
       exact h.ctlOnly [] rfl rfl rfl rfl (by simp) (by simp) rfl (fun _ => by rw [hc]; rfl) rfl (by rw [hc]; simp)
     · exact h.flags rfl rfl rfl rfl rfl rfl
@@ -769,9 +795,8 @@ theorem step_outs_prefix (s : St) : s.outs <+: (step specs s).outs := by
           · refine List.IsPrefix.trans ?_ (hl _ _ _ _); simp [emit, List.append_assoc]
         · simp [emit]
     · simp [emit]
-    · split
-      · simp only []; refine List.IsPrefix.trans ?_ (hsh _ _ _); simp
-      · simp only []; refine List.IsPrefix.trans ?_ (hsh _ _ _); simp [emit]
+    · simp only []
+      split <;> split <;> (try split) <;> simp [emit, List.append_assoc]
   · unfold resumeStep
     split <;> (try split) <;> simp [beginExit, emit]
   · unfold exitStep
